@@ -69,6 +69,12 @@ def builders(m):
 
 def run(ck, m):
     _run(ck, m)
+    from nl import alias as _alias
+    ck.rule('C05.n', 'a removed key leaves a tombstone for the full synchronisation (C01.g, repeated): an entry that has a record on disk — the '
+                     'tombstone of a removed key that is set again included — never goes back to state New, because `remove` drops a New '
+                     'entry from memory without a tombstone; with no tombstone the full synchronisation sends no replicate-remove and a node '
+                     'that rejoins with an older snapshot keeps the key for ever')
+    _alias.repeat(ck, m, 'C01', ('C01.g',), 'C05.n', key_filter=lambda k: 'only-an-unsaved-entry-stays-new' in k)
     # the incremental catch-up is built from what the oplog query returns: the query's "last record of a key wins" rules are C12's
     # (d: files oldest first, live file last; h: every record inserted unconditionally); their verdicts are repeated here because a
     # key written and then removed while the node was away is removed on it only if the LAST record labels the key
